@@ -6,4 +6,6 @@ for id in $(python3 -c "import json; print(' '.join(c['property_id'] for c in js
   s=$(date +%s); out=$(./check $id $tier 2>&1); rc=$?; e=$(date +%s)
   echo "$id rc=$rc wall=$((e-s))s $(echo "$out" | grep -E '^SUMMARY' | cut -c1-220)"
   echo "$out" | grep -E '^(VIOLATION|MACHINERY)' | head -3 | cut -c1-300
+  # keep a snapshot of the thorough-tier evidence (evidence/<id>.json is rewritten by every run)
+  if [ "$tier" = thorough ]; then mkdir -p evidence/thorough; python3 tools/slim_evidence.py evidence/$id.json evidence/thorough/$id.json; fi
 done
